@@ -101,7 +101,7 @@ fn run_case<'a>(ctx: &'a Ctx, case: u64, acc: &'a mut Acc) -> CaseFut<'a> {
         let v = Peer::start("V", seed, 1, MODEL, &dir.join("v"), small_config()).await.unwrap();
         let m = Identity::new(seed, 50);
         let other = Identity::new(seed, 51);
-        let keys = vec![a.id.vkey.clone(), v.id.vkey.clone(), m.vkey.clone(), other.vkey.clone()];
+        let keys = vec![a.id.vkey.clone(), v.id.vkey.clone(), m.vkey.clone(), other.vkey.clone(), Identity::new(seed, 52).vkey];
         let two_groups = rng.gen_bool(0.6);
         let mk_right = |e: &str, own: bool, all: bool| RightSpec { entity: e.to_string(), own, all };
         let mut groups = vec![GroupSpec {
@@ -146,6 +146,20 @@ fn run_case<'a>(ctx: &'a Ctx, case: u64, acc: &'a mut Acc) -> CaseFut<'a> {
                 }
             }
         }
+        // ... or a user admin of the first group for a while
+        let mut user_admin_window: Option<(i64, i64)> = None;
+        if admin_window.is_none() && rng.gen_bool(0.4) {
+            t += 50;
+            clock_set(t);
+            let from = t;
+            if a.edit_room(&mut room, &RoomEdit::UserAdmin(0, m.vkey.clone(), true)).await.is_ok() {
+                t += 500;
+                clock_set(t);
+                if a.edit_room(&mut room, &RoomEdit::UserAdmin(0, m.vkey.clone(), false)).await.is_ok() {
+                    user_admin_window = Some((from, t));
+                }
+            }
+        }
         t += 5;
         clock_set(t);
         let st = pull(&v, &a, room.id, PullOpts::default()).await;
@@ -178,7 +192,13 @@ fn run_case<'a>(ctx: &'a Ctx, case: u64, acc: &'a mut Acc) -> CaseFut<'a> {
         clock_set(t);
 
         // candidate
-        let kind = if admin_window.is_some() && rng.gen_bool(0.5) { 12 } else { rng.gen_range(0..12) };
+        let kind = if admin_window.is_some() && rng.gen_bool(0.5) {
+            12
+        } else if user_admin_window.is_some() && rng.gen_bool(0.5) {
+            13
+        } else {
+            rng.gen_range(0..12)
+        };
         let mut cand = export_v1.clone();
         let mut expected: Vec<&RoomHandle> = vec![&model_v0, &room];
         let mut sequence: Option<Vec<RoomNode>> = None;
@@ -277,6 +297,15 @@ fn run_case<'a>(ctx: &'a Ctx, case: u64, acc: &'a mut Acc) -> CaseFut<'a> {
                 cand.admin_edges.push(signed_edge(room.id, ROOM_ENT_SHORT, "32", n.id, edge_date, &m));
                 cand.admin_nodes.push(UserNode { node: n });
                 "self-signed-admin-entry-by-a-former-admin-created-while-it-was-admin"
+            }
+            13 => {
+                // a former user admin of the group adds a user (a key that is in no group) with an entry dated now
+                let stranger = Identity::new(seed, 52);
+                let n = user_node(&stranger.vkey, t, &m, &mut rng);
+                let aid = cand.auth_nodes[0].node.id;
+                cand.auth_nodes[0].user_edges.push(signed_edge(aid, AUTH_ENT_SHORT, "34", n.id, t, &m));
+                cand.auth_nodes[0].user_nodes.push(UserNode { node: n });
+                "user-entry-by-a-former-user-admin"
             }
             _ => {
                 // honest versions out of order and repeated
